@@ -5,6 +5,8 @@ Fault enumeration with the same explorer.
 pflow : ill-posed inputs on small networks (overload x5 / x20, island without slack, zero-impedance branch, tap = 0,
         NaN / inf parameters, iteration limit too small, loads at every bus scaled to the nose) x Newton variant x
         routine sequence {pflow; pflow,tds; pflow,eig; pflow,tds,eig}, through the API and through the CLI entry point.
+slip  : two classical machines that keep converging while slipping poles (light machine x fault bus x fault duration x
+        machine order x method): the stability criterion, recomputed from the stored angles, must stop the run.
 tds   : a solver answer of NaN injected at every one of the first K linear solves (<= 1 injection), forced rejection
         with a fixed step and shrinkt = 0, unstable disturbances (long fault, generator trip), inconsistent dynamic
         data (tiny machine rating, negative inertia, machine on a load bus with no generator).
@@ -380,6 +382,86 @@ class TDSFaults(Part):
         return out
 
 
+# ------------------------------------------------------------------ loss of synchronism
+
+class Slip(Part):
+    """Two classical machines that keep converging while they slip poles: only the stability criterion can stop the run."""
+    name = 'slip'
+    chunk = 2
+    timeout = 600.0
+    nproc = 8
+    DUR = (0.05, 0.2, 0.4, 0.6, 0.9)
+
+    def describe(self, tier):
+        return (f'two GENCLS machines on two buses: light machine in (G1, G2) x fault bus in (1, 2) x fault duration in {self.DUR} x '
+                f'machine add order (G1 first, G2 first) x (trapezoid, backeuler) x criteria in (1, 0); tf = 4 s')
+
+    def cases(self, tier):
+        out = []
+        for light, fb, dur, order, method in itertools.product((1, 2), (1, 2), self.DUR, ('12', '21'), ('trapezoid', 'backeuler')):
+            out.append(dict(light=light, fbus=fb, dur=dur, order=order, method=method, criteria=1))
+        for light, fb in itertools.product((1, 2), (1, 2)):
+            out.append(dict(light=light, fbus=fb, dur=0.9, order='12', method='trapezoid', criteria=0))
+        return out
+
+    def execute(self, case):
+        import andes
+        out = Outcome()
+        ss = andes.System(no_output=True, default_config=True)
+        for b in (1, 2):
+            ss.add('Bus', dict(idx=b, name=f'B{b}', Vn=110.0))
+        for k in range(2):
+            ss.add('Line', dict(idx=f'L{k}', bus1=1, bus2=2, Vn1=110.0, Vn2=110.0, r=0.0, x=0.4 + 0.1 * k))
+        ss.add('Slack', dict(idx='S1', bus=1, Vn=110.0, Sn=100.0, v0=1.0, a0=0.0))
+        ss.add('PV', dict(idx='G2s', bus=2, Vn=110.0, Sn=100.0, v0=1.0, p0=0.9 if case['light'] == 2 else 0.2))
+        ss.add('PQ', dict(idx='D1', bus=1, Vn=110.0, p0=0.9 if case['light'] == 2 else 0.0 + 0.05, q0=0.05))
+        ss.add('PQ', dict(idx='D2', bus=2, Vn=110.0, p0=1.0 if case['light'] == 1 else 0.1, q0=0.05))
+        M = {1: 3.0 if case['light'] == 1 else 60.0, 2: 3.0 if case['light'] == 2 else 60.0}
+        for g in case['order']:
+            g = int(g)
+            ss.add('GENCLS', dict(idx=f'M{g}', bus=g, gen='S1' if g == 1 else 'G2s', Vn=110.0, Sn=100.0, M=M[g], D=0.0, xd1=0.3))
+        ss.add('Fault', dict(idx='F', bus=case['fbus'], tf=0.5, tc=0.5 + case['dur'], xf=1e-3, rf=0.0))
+        ss.setup()
+        systems.quiet_tds(ss)
+        if not ss.PFlow.run():
+            out.obs = dict(skip='power flow')
+            return out
+        tds = ss.TDS
+        tds.config.tf = 4.0
+        tds.config.criteria = case['criteria']
+        tds.config.method = case['method']
+        tds.set_method(case['method'])
+        try:
+            ret = tds.run(no_summary=True)
+        except Exception as e:
+            out.bad(f'routine_raises:{type(e).__name__}', f'TDS.run raised {type(e).__name__}: {e}')
+            return out
+        t = np.array(ss.dae.ts.t)
+        d = np.array(ss.dae.ts.x)[:, ss.GENCLS.delta.a]
+        spread = d.max(axis=1) - d.min(axis=1)          # the criterion, recomputed: largest rotor-angle difference
+        limit = np.deg2rad(tds.config.ddelta_limit)
+        kb = np.where(spread >= limit)[0]
+        lost = len(kb) > 0
+        out.obs = dict(ret=bool(ret), lost=lost, t_end=round(float(t[-1]), 4), t_lost=round(float(t[kb[0]]), 4) if lost else None,
+                       exit=ss.exit_code)
+        out.nontrivial = lost
+        out.transitions = len(t)
+        if case['criteria'] == 1 and lost:
+            if ret:
+                out.bad('success_despite_loss_of_synchronism', f'rotor angles {np.rad2deg(spread.max()):.0f} deg apart (limit '
+                        f'{tds.config.ddelta_limit:g}) from t = {t[kb[0]]:.3f} s; TDS.run returned True at t = {t[-1]:.3f} s')
+            elif ss.exit_code == 0:
+                out.bad('exit_zero_on_failure:criterion', 'stability criterion tripped, exit code 0')
+            if t[-1] > t[kb[0]] + 1e-9:
+                out.bad('run_continues_past_tripped_criterion', f'criterion violated at the stored instant t = {t[kb[0]]:.4f} s, the run '
+                                                                f'went on to t = {t[-1]:.4f} s')
+        if ret and (float(ss.dae.t) != tds.config.tf or not np.all(np.isfinite(d))):
+            out.bad('success_not_at_tf_or_nan', f'returned True at t = {float(ss.dae.t)}')
+        if not ret and ss.exit_code == 0:
+            out.bad('exit_zero_on_failure:slip', 'TDS.run returned False with exit code 0')
+        return out
+
+
 # ------------------------------------------------------------------ corrupt files
 
 class Files(Part):
@@ -473,7 +555,7 @@ class Files(Part):
 
 
 def parts(tier):
-    return [PFlowFaults(), TDSFaults(), Files()]
+    return [PFlowFaults(), TDSFaults(), Slip(), Files()]
 
 
 def run(run, only=None):
